@@ -444,7 +444,8 @@ def external_module(it, dotted):
     elif dotted == 'collections.abc':
         a['Iterable'] = T('Iterable')
     elif dotted == 'itertools':
-        a.update(chain=Builtin('itertools.chain', _chain), islice=Builtin('itertools.islice', _islice))
+        a.update(chain=Builtin('itertools.chain', _chain), islice=Builtin('itertools.islice', _islice),
+                 zip_longest=Builtin('itertools.zip_longest', lambda it, *srcs: lib.ZipLongestSource(it, list(srcs))))
     elif dotted == 'functools':
         a['reduce'] = Builtin('functools.reduce', _reduce)
         a['partial'] = Builtin('functools.partial', lambda it, *x, **k: lib._unsup('functools.partial'))
@@ -462,6 +463,22 @@ def external_module(it, dotted):
     elif dotted == 'datetime':
         for n in ('datetime', 'date', 'time', 'timedelta', 'timezone'):
             a[n] = T(n)
+
+        def date_ctor(it_, *args):
+            # only what a module-level platform probe needs: datetime.date(1, 1, 1).strftime('%04Y').  The answer is that
+            # of glibc ('0001'; other C libraries give '4Y' or raise ValueError) -- platform assumption, listed as trusted.
+            if not all(isinstance(x, int) for x in args):
+                raise Unsupported('datetime.date(...) with symbolic arguments')
+            d = lib.Opaque('date', 'date%r' % (args,))
+
+            def strftime(it2, o, a2, k2):
+                if tuple(args) == (1, 1, 1) and list(a2) == ['%04Y']:
+                    it2.assumptions.add("platform probe datetime.date(1,1,1).strftime('%04Y') answers '0001' (glibc)")
+                    return '0001'
+                raise Unsupported('strftime on a concrete date')
+            d.attrs['call:strftime'] = strftime
+            return d
+        a['date'].ctor = date_ctor
     elif dotted == 'tableschema.exceptions':
         a['CastError'] = lib.exc_class('CastError')
         a['UniqueKeyError'] = lib.exc_class('UniqueKeyError')
